@@ -43,10 +43,15 @@ def main(path, start):
             if c.get('alt') is not None:
                 out['vcalt'] = float(ie.conduct_feature_ranking(Y2.reshape(-1, 1).copy(), X.copy(), a))
             if c.get('sample'):
-                fv, _ = m.numba_unique(X)
-                Ys, Xs = m.stratified_subsampling(Y, X, r, fv)
-                out['Ys'] = [int(v) for v in Ys]
-                out['Xs'] = [int(v) for v in Xs]
+                # the sampler is an INTERNAL helper: its name and signature are the implementation's business.  If it cannot be
+                # called the way the unchanged code defines it, the sample is simply not observable (a broken tie, not a failure).
+                try:
+                    fv, _ = m.numba_unique(X)
+                    Ys, Xs = m.stratified_subsampling(Y, X, r, fv)
+                    out['Ys'] = [int(v) for v in Ys]
+                    out['Xs'] = [int(v) for v in Xs]
+                except (TypeError, AttributeError) as e:
+                    out['sample_unobservable'] = type(e).__name__ + ':' + str(e)[:100]
         except Exception as e:  # noqa: BLE001
             out['exc'] = type(e).__name__ + ':' + str(e)[:100]
         print(json.dumps(out), flush=True)
